@@ -1,16 +1,17 @@
 // C14: wallet keys are a deterministic function of the seed and follow BIP32/BIP39.
 //
 // Shape-mode exploration in two parts:
-//  (i) library: btc.HDWallet private and public derivation over the complete
-//      index-set tree {0,1,2^31-1,2^31,2^31+1,2^32-1}^<=3 below several seeds,
-//      serialisation round trips, btc.StringWallet on every single-character
-//      mutation of valid extended keys, the bip39 package on all entropy lengths x
-//      patterns and on every single-word substitution of valid mnemonics -
-//      compared with verif/ref/refhd (BIP32/BIP39 from the BIP texts);
-//  (ii) the wallet BINARY built from the tree, driven as a black box over a
-//      family of configurations (seed passwords x type 3/4 x hdpath x hdsubs x
-//      bip39 x scrypt x atype x network); -l, -dump, -xprv, -words outputs are
-//      parsed and judged against refhd/refaddr; every configuration runs twice.
+//
+//	(i) library: btc.HDWallet private and public derivation over the complete
+//	    index-set tree {0,1,2^31-1,2^31,2^31+1,2^32-1}^<=3 below several seeds,
+//	    serialisation round trips, btc.StringWallet on every single-character
+//	    mutation of valid extended keys, the bip39 package on all entropy lengths x
+//	    patterns and on every single-word substitution of valid mnemonics -
+//	    compared with verif/ref/refhd (BIP32/BIP39 from the BIP texts);
+//	(ii) the wallet BINARY built from the tree, driven as a black box over a
+//	    family of configurations (seed passwords x type 3/4 x hdpath x hdsubs x
+//	    bip39 x scrypt x atype x network); -l, -dump, -xprv, -words outputs are
+//	    parsed and judged against refhd/refaddr; every configuration runs twice.
 package main
 
 import (
@@ -349,7 +350,7 @@ func main() {
 	if r.Thorough() {
 		r.Budget = 18 * time.Minute
 	} else {
-		r.Budget = 105 * time.Second
+		r.Budget = 150 * time.Second
 	}
 	nvec := 0
 	for _, v := range vaddr {
@@ -479,12 +480,12 @@ func main() {
 				p := f(append([]byte{}, payload...))
 				evalXKey(st, "xkey-structural", refaddr.B58CheckEncode(p))
 			}
-			mod(func(p []byte) []byte { p[45] = 4; return p })                     // key prefix 04
-			mod(func(p []byte) []byte { p[45] = 1; return p })                     // key prefix 01
-			mod(func(p []byte) []byte { p[5] = 1; return p })                      // depth 0, fingerprint != 0
-			mod(func(p []byte) []byte { p[12] = 1; return p })                     // depth 0, index != 0
+			mod(func(p []byte) []byte { p[45] = 4; return p })                           // key prefix 04
+			mod(func(p []byte) []byte { p[45] = 1; return p })                           // key prefix 01
+			mod(func(p []byte) []byte { p[5] = 1; return p })                            // depth 0, fingerprint != 0
+			mod(func(p []byte) []byte { p[12] = 1; return p })                           // depth 0, index != 0
 			mod(func(p []byte) []byte { p[0], p[1], p[2], p[3] = 0, 0, 0, 0; return p }) // unknown version
-			mod(func(p []byte) []byte { copy(p[46:], make([]byte, 32)); return p }) // key 0 / x = 0
+			mod(func(p []byte) []byte { copy(p[46:], make([]byte, 32)); return p })      // key 0 / x = 0
 			mod(func(p []byte) []byte {
 				n, _ := hex.DecodeString("fffffffffffffffffffffffffffffffebaaedce6af48a03bbfd25e8cd0364141")
 				copy(p[46:], n)
@@ -639,21 +640,21 @@ func main() {
 	}
 	sort.Strings(classList)
 	r.Finish(map[string]interface{}{
-		"evaluations":                        total.evals,
-		"distinct_nontrivial":                len(total.classes),
-		"rule":                               "a case is an (input/configuration family, reference outcome class, gocoin outcome class) triple; distinct_nontrivial counts the distinct triples observed. Library classes: key agreement per derivation kind, accept/refuse per refusal reason; binary classes: one per (network, address type, seed mode, path depth, sub-account count) whose complete output set (list, dump, xprv, words, re-import) agreed with the reference",
-		"evaluations_per_family":             perFamily,
-		"outcome_classes":                    classList,
-		"measured_counts":                    total.counts,
-		"not_judged_observations":            total.notes,
-		"hd_seeds":                           len(seeds),
-		"hd_index_set":                       idxSet,
-		"xkey_mutation_seeds":                len(xkeys),
-		"wallet_configurations":              len(cfgs),
+		"evaluations":                         total.evals,
+		"distinct_nontrivial":                 len(total.classes),
+		"rule":                                "a case is an (input/configuration family, reference outcome class, gocoin outcome class) triple; distinct_nontrivial counts the distinct triples observed. Library classes: key agreement per derivation kind, accept/refuse per refusal reason; binary classes: one per (network, address type, seed mode, path depth, sub-account count) whose complete output set (list, dump, xprv, words, re-import) agreed with the reference",
+		"evaluations_per_family":              perFamily,
+		"outcome_classes":                     classList,
+		"measured_counts":                     total.counts,
+		"not_judged_observations":             total.notes,
+		"hd_seeds":                            len(seeds),
+		"hd_index_set":                        idxSet,
+		"xkey_mutation_seeds":                 len(xkeys),
+		"wallet_configurations":               len(cfgs),
 		"wallet_configurations_per_dimension": perDim,
-		"reference_vectors_validated":        nvec,
-		"reference_vectors_validated_detail": map[string]interface{}{"refaddr": vaddr, "refhd": vhd},
-		"samples":                            samples.L,
+		"reference_vectors_validated":         nvec,
+		"reference_vectors_validated_detail":  map[string]interface{}{"refaddr": vaddr, "refhd": vhd},
+		"samples":                             samples.L,
 	}, []string{
 		"oracle: verif/ref/refhd (BIP32 CKDpriv/CKDpub/serialisation, BIP39, PBKDF2 and scrypt written from the BIP/RFC texts over refsecp math/big affine arithmetic) and verif/ref/refaddr; both validated at start against every vector on disk (BIP32 vectors 1-2, 24 BIP39 vectors + bad sentences, scrypt vectors, Base58/Bech32 lists); the BIP39 English word list is read from lib/others/bip39/wordlist.go and pinned by SHA-256 " + refhd.EnglishSHA256,
 		"wallet seed derivation as read from wallet/wallet.go and wallet/stuff.go: seed password P = secret_seed (cfg `seed=`) || bytes of the .secret file or of stdin with -stdin (raw, including any newline); type 4, bip39=0: BIP32 master seed = P; bip39=-1: P is a mnemonic (tokens = maximal runs of ASCII letters, lower-cased, joined by one space), seed = PBKDF2(mnemonic, 'mnemonic'+passphrase read with -p39); bip39=N: the printed N words are judged to be a valid BIP39 mnemonic and the root must be the BIP32 master of PBKDF2(those words, 'mnemonic')",
